@@ -381,8 +381,9 @@ def run(M, rep, tier, only=None):
                   site=bad[1].site if bad else None, detail=describe_path(bad[0]) if bad else None)
 
     # ---- R13 (shared with C04.R4): a deletion removes every link to the deleted ids, so that no stale link survives a reopen
-    from .common import run_shared
-    run_shared(c04, M, rep, tier, {"C04.R4": "C02.R13"})
+    R13 = rep.rule("C02.R13", "delete_all matches by entity_id below its receiver, every match (shared with C04.R4)", floor=2,
+                   technique="guard dependency in raw mode")
+    c04.delete_all_rule(M, rep, R13)
     # ---- R14 (shared with C05.R3): assigning a link twice leaves the second target linked
     R14 = rep.rule("C02.R14", "create_link stores the link on every normal path (an existing link of that name is replaced)", floor=1,
                    technique="raw h5py events of H5Group.create_link on all abstract paths (shared with C05.R3)")
